@@ -377,6 +377,16 @@ void OPN2::touchNote(size_t c,
 
     const OpnTimbre &adli = m_insCache[c];
 
+    // MIDI values have 7 bits, the volume tables below have no entries for anything bigger
+    if(velocity > 127)
+        velocity = 127;
+    if(channelVolume > 127)
+        channelVolume = 127;
+    if(channelExpression > 127)
+        channelExpression = 127;
+    if(brightness > 127)
+        brightness = 127;
+
     uint_fast32_t volume = 0;
 
     uint8_t op_vol[4] =
